@@ -55,6 +55,12 @@ def gen(rng, k, tight=False):
         elev[0] = min_weight   # "elevation >= min_weight": equality is still strong enough
     nout = int(rng.integers(0, 7)) if k % 2 else 0
     nweak = int(rng.integers(0, 4)) if k % 3 else 0
+    if (k // 8) % 3 == 2:
+        # min_weight = 0 (accept every peak): a peak of elevation exactly 0 is still "elevation >= min_weight"; it has no
+        # weight in the fit but is matched and reported like any other
+        min_weight, nweak = 0.0, 0
+        if np.linalg.matrix_rank(np.hstack([np.ones((len(idx) - 1, 1)), idx[1:]])) == 3:
+            elev[0] = 0.0
     out_idx = []
     free = [g for g in grid if g not in {tuple(x) for x in idx.astype(int).tolist()}]
     for _ in range(nout):
